@@ -28,9 +28,11 @@ from . import C06
 
 ID = "C07"
 PROPS_FILE = "Props/C07.v"
+PROPS_EXTRA = ["Props/C07e2e.v"]   # end-to-end corollaries (coordinator)
 GEN_DEPS = ["GenGrammar", "GenUnits"]
 ALLOWED_AXIOMS: List[str] = []
 THEOREMS: Dict[str, str] = {
+    "C07_pipeline_crash_only_overflow": "full", "C01_source_meets_spec_partial": "partial", "parse_blocks_no_compile_crash": "full",
     "C07_smoke": "example",
     "C07_no_crash_partial": "partial", "C07_no_crash_partial_ex": "example",
     "C07_overflow_refuted": "refuted", "C07_308_digits_fine": "example",
